@@ -42,6 +42,7 @@ type Loop struct {
 	Ordinal int
 	Parent  *Loop
 	ct      *LoopContract
+	keyName string // range loops: name of the key variable
 }
 
 type deferred struct {
@@ -75,6 +76,27 @@ type FnTr struct {
 	curLoops []*loopFrame
 	lockDepth map[string]*Term
 	curInstr ssa.Instruction
+	fnFrame  []cellRange // declared modifies of the top-level function, evaluated at entry
+	storeChecks bool     // recovering function with a frame: every write is checked against it
+}
+
+// writeCheck: in a recovering function the frame must hold at every possible panic point,
+// so each write is obliged to stay inside the declared frame or inside a fresh object.
+func (tr *FnTr) writeCheck(obj, lo, hi *Term) {
+	top := tr.top
+	if !top.storeChecks {
+		return
+	}
+	var in []*Term
+	in = append(in, Ge(obj, top.entry.Alloc))
+	for _, r := range top.fnFrame {
+		in = append(in, And(Eq(obj, r.Obj), Le(r.Lo, lo), Le(hi, r.Hi)))
+	}
+	p := token.NoPos
+	if tr.curInstr != nil {
+		p = tr.curInstr.Pos()
+	}
+	tr.vc.Oblige(tr.prefix+"frame.store", "", Implies(tr.st.Reach, Or(in...)), tr.pos(p))
 }
 
 type loopFrame struct {
@@ -210,6 +232,11 @@ func (tr *FnTr) analyzeLoops() {
 		if best >= 0 && !used[best] {
 			l.Ordinal = best + 1
 			used[best] = true
+			if rs, ok := astLoops[best].(*ast.RangeStmt); ok {
+				if id, ok := rs.Key.(*ast.Ident); ok {
+					l.keyName = id.Name
+				}
+			}
 		}
 	}
 	// loops not matched (goto loops): number after the AST loops in header order
@@ -555,7 +582,7 @@ func (tr *FnTr) procLoop(l *Loop) {
 	}
 	for i, c := range invs {
 		ctx := tr.specCtxAt(est, entryPhi, h)
-		g := ctx.evalBool(c.E)
+		g := ctx.goal(c.E)
 		tr.vc.Oblige(tr.prefix+"inv.entry."+lname, labelOr(c.Label, i+1), Implies(est.Reach, g), c.Pos)
 	}
 	// 2. havoc
@@ -584,7 +611,7 @@ func (tr *FnTr) procLoop(l *Loop) {
 	hdrPhi := fr.phiHdr
 	for _, c := range invs {
 		ctx := tr.specCtxAt(hst, hdrPhi, h)
-		tr.vc.Assume(Implies(hst.Reach, ctx.evalBool(c.E)))
+		tr.vc.Assume(Implies(hst.Reach, ctx.fact(c.E)))
 	}
 	for _, a := range autoInv {
 		tr.vc.Assume(a)
@@ -592,7 +619,7 @@ func (tr *FnTr) procLoop(l *Loop) {
 	var decHdr *Term
 	if l.ct != nil && l.ct.Decreases != nil {
 		ctx := tr.specCtxAt(hst, hdrPhi, h)
-		decHdr = tr.vc.Def("variant_"+lname, ctx.evalInt(l.ct.Decreases.E))
+		decHdr = tr.vc.Def("variant_"+lname, ctx.intTerm(l.ct.Decreases.E))
 	}
 	// 3. body
 	tr.curLoops = append(tr.curLoops, fr)
@@ -622,12 +649,12 @@ func (tr *FnTr) procLoop(l *Loop) {
 		}
 		for i, c := range invs {
 			ctx := tr.specCtxAt(e.St, bphi, h)
-			g := ctx.evalBool(c.E)
+			g := ctx.goal(c.E)
 			tr.vc.Oblige(tr.prefix+"inv.step."+lname, labelOr(c.Label, i+1)+suffix, Implies(e.St.Reach, g), c.Pos)
 		}
 		if decHdr != nil {
 			ctx := tr.specCtxAt(e.St, bphi, h)
-			d := ctx.evalInt(l.ct.Decreases.E)
+			d := ctx.intTerm(l.ct.Decreases.E)
 			tr.vc.Oblige(tr.prefix+"variant."+lname, strings.TrimPrefix(suffix, "@"), Implies(e.St.Reach, And(Le(Int(0), decHdr), Lt(d, decHdr))), l.ct.Decreases.Pos)
 		}
 		if writes {
@@ -749,6 +776,10 @@ func (tr *FnTr) freshVal(base string, T types.Type, alloc *Term) Val {
 
 // assumeTyped asserts the typing facts of a value (ranges, header shape).
 func (tr *FnTr) assumeTyped(v Val, alloc *Term) {
+	tr.vc.Assume(typingFacts(v, alloc))
+}
+
+func typingFacts(v Val, alloc *Term) *Term {
 	lay := layoutOf(v.T)
 	var cs []*Term
 	for i, lf := range lay.Leaves {
@@ -777,7 +808,7 @@ func (tr *FnTr) assumeTyped(v Val, alloc *Term) {
 			cs = append(cs, Le(t, maxLen))
 		}
 	}
-	tr.vc.Assume(And(cs...))
+	return And(cs...)
 }
 
 // autoInvariants: candidates that are sound by construction for go/ssa's rangeindex
